@@ -18,7 +18,7 @@ MUTANTS = [
     m("c16-fast-stage-all-adapters", "R1", SG, "                n_iter=n_final_fast_stage_iter,\n                adapters=fast_adapters,", "                n_iter=n_final_fast_stage_iter,\n                adapters=adapters,"),
     m("c16-window-gets-fast-only", "R1", SG, "                        n_iter=n_iter,\n                        adapters=adapters,", "                        n_iter=n_iter,\n                        adapters=fast_adapters,"),
     m("c16-fast-filter-inverted", "R1", SG, "[adapter for adapter in adapter_list if adapter.is_fast]", "[adapter for adapter in adapter_list if not adapter.is_fast]"),
-    m("c16-no-clamp", "R1", SG, "                if counter_next > n_slow_stage_iter:\n                    n_window_iter = n_slow_stage_iter - counter\n", ""),
+    m("c16-no-clamp", "R1", SG, "                if counter_next > n_slow_stage_iter or n_window_iter < 1:\n                    n_window_iter = n_slow_stage_iter - counter\n", ""),
     m("c16-counter-not-coupdated", "R1", SG, "                counter += n_window_iter\n", "                counter += n_window_iter + 1\n"),
     m("c16-seed-max1", "R1", SG, "            n_init_fast_stage_iter = int(0.15 * n_warm_up_iter)\n            n_final_fast_stage_iter = int(0.1 * n_warm_up_iter)", "            n_init_fast_stage_iter = max(1, int(0.15 * n_warm_up_iter))\n            n_final_fast_stage_iter = max(1, int(0.1 * n_warm_up_iter))"),
     m("c16-warmup-main-swapped-len", "R1", SG, "            sampling_stages[\"Adaptive warm up\"] = ChainStage(\n                n_iter=n_warm_up_iter,", "            sampling_stages[\"Adaptive warm up\"] = ChainStage(\n                n_iter=n_warm_up_iter + 1,"),
@@ -32,4 +32,15 @@ MUTANTS = [
     m("c16-finalize-wrong-transition", "R2", SA, "            adapter.finalize(adapter_states, chain_states, transitions[trans_key], rngs)", "            adapter.finalize(adapter_states, chain_states, next(iter(transitions.values())), rngs)"),
     m("c16-finalize-skip-fast", "R2", SA, "            adapter.finalize(adapter_states, chain_states, transitions[trans_key], rngs)", "            if not adapter.is_fast:\n                adapter.finalize(adapter_states, chain_states, transitions[trans_key], rngs)"),
     m("c16-twin-finalize-guard-truthy", None, SA, "                    if len(adapter_states) > 0:\n                        _finalize_adapters(", "                    if adapter_states:\n                        _finalize_adapters(", twin=True),
+    m("c16-undo-F18", "R1", SG, "                if counter_next > n_slow_stage_iter or n_window_iter < 1:", "                if counter_next > n_slow_stage_iter:", key="no-progress"),
+    m("c16-progress-guard-on-wrong-var", "R1", SG, "                if counter_next > n_slow_stage_iter or n_window_iter < 1:", "                if counter_next > n_slow_stage_iter or counter_next < 1:", key="no-progress"),
+    m("c16-progress-guard-and", "R1", SG, "                if counter_next > n_slow_stage_iter or n_window_iter < 1:", "                if counter_next > n_slow_stage_iter and n_window_iter < 1:"),
+    {"id": "c16-twin-progress-by-max", "prop": "C16", "rule": None, "twin": True, "edits": [
+        {"file": SG, "old": "                if counter_next > n_slow_stage_iter or n_window_iter < 1:", "new": "                if counter_next > n_slow_stage_iter:"},
+        {"file": SG, "old": "            n_window_iter = n_init_slow_window_iter\n", "new": "            n_window_iter = max(1, n_init_slow_window_iter)\n"},
+        {"file": SG, "old": "                n_window_iter = int(self.slow_window_multiplier * n_window_iter)", "new": "                n_window_iter = max(1, int(self.slow_window_multiplier * n_window_iter))"}]},
+    {"id": "c16-twin-progress-by-validation", "prop": "C16", "rule": None, "twin": True, "edits": [
+        {"file": SG, "old": "                if counter_next > n_slow_stage_iter or n_window_iter < 1:", "new": "                if counter_next > n_slow_stage_iter:"},
+        {"file": SG, "old": "        self.n_init_slow_window_iter = n_init_slow_window_iter\n", "new": "        if n_init_slow_window_iter < 1 or slow_window_multiplier < 1:\n            raise ValueError(\"window settings\")\n        self.n_init_slow_window_iter = n_init_slow_window_iter\n"}]},
+    m("c16-twin-progress-guard-le0", None, SG, "                if counter_next > n_slow_stage_iter or n_window_iter < 1:", "                if n_window_iter <= 0 or counter_next > n_slow_stage_iter:", twin=True),
 ]
